@@ -32,6 +32,7 @@ pub mod c08;
 pub mod c09;
 pub mod c14;
 pub mod c15;
+pub mod c16;
 pub mod replay;
 
 pub use engine::chooser::{choose, deviate};
